@@ -4,6 +4,7 @@ package harness
 
 import (
 	"fmt"
+	"math"
 	"testing"
 
 	"pgregory.net/rapid"
@@ -20,6 +21,11 @@ func genC04(t *rapid.T) c04Case {
 	c := c04Case{Cfg: genLimitCfg(t, []string{"aimd", "vegas", "gradient", "gradient2"}, true)}
 	if c.Cfg.Algo == "gradient2" && rapid.IntRange(0, 9).Draw(t, "lw0") == 0 {
 		c.Cfg.LongWindow = 0
+	}
+	if c.Cfg.Algo == "aimd" && rapid.IntRange(0, 7).Draw(t, "hugeAIMD") == 0 {
+		// AIMD has no ceiling: estimates at and beyond 2^31 (the in-flight domain ends at 2^31-1)
+		c.Cfg.Initial = rapid.SampledFrom([]int{math.MaxInt32 - 1, math.MaxInt32, 1 << 31, 1<<31 + 5, 1 << 40}).Draw(t, "hugeInitial")
+		c.Cfg.IncreaseBy = rapid.SampledFrom([]int{1, 2, 1 << 30, 1 << 31}).Draw(t, "hugeIncr")
 	}
 	if c.Cfg.Algo == "vegas" {
 		c.Cfg.NoLoad = rapid.SampledFrom([]string{"", "", "", "single", "expavg"}).Draw(t, "noload")
